@@ -98,6 +98,7 @@ var methodFields = map[string]bool{"Get": true, "Put": true, "Post": true, "Dele
 func main() {
 	repo := flag.String("repo", "/repo", "repository root")
 	out := flag.String("out", "", "output Lean file")
+	keysOut := flag.String("keys", "", "output Lean file for the translated SplitKey predicates (default: Keys.lean next to -out)")
 	flag.Parse()
 
 	root, err := parseDir(*repo)
@@ -400,9 +401,27 @@ func main() {
 	b.WriteString("  ]\n")
 	_ = sort.Strings
 
+	kb, kerr := generateKeysLean(*repo)
+	if kerr != nil {
+		fmt.Fprintln(os.Stderr, "extract: keys:", kerr)
+		os.Exit(1)
+	}
 	if *out == "" {
 		os.Stdout.Write(b.Bytes())
+		if *keysOut == "-" {
+			os.Stdout.Write(kb)
+		}
 		return
+	}
+	kp := *keysOut
+	if kp == "" {
+		kp = filepath.Join(filepath.Dir(*out), "Keys.lean")
+	}
+	if old, err := os.ReadFile(kp); err != nil || !bytes.Equal(old, kb) {
+		if err := os.WriteFile(kp, kb, 0o644); err != nil {
+			fmt.Fprintln(os.Stderr, "extract:", err)
+			os.Exit(1)
+		}
 	}
 	if old, err := os.ReadFile(*out); err == nil && bytes.Equal(old, b.Bytes()) {
 		return // unchanged: keep the build cache warm
